@@ -1298,6 +1298,58 @@ def stream_spectra(ctx, ncases):
 # ---------------------------------------------------------------------------------------------
 
 
+def stream_inf(ctx, ncases):
+    """data holding +-infinity (the depth of a deep-water spectrum is inf): a target exactly on a node returns the
+    node's value - the other neighbour has weight zero and takes no part, whatever it holds.  The model has no
+    infinities (R); this stream is an oracle on the implementation alone (node exactness, a clause of the property)."""
+    rng = ctx.rng
+    cases, metas = [], []
+    for _ in range(ncases):
+        n = rng.randint(3, 7)
+        asc = gen_grid(rng, n, "float")
+        grid = list(reversed(asc)) if rng.random() < 0.3 else asc
+        nst = rng.choice([1, 1, 2, 3])
+        a = np.array([C.dyadic(rng, -8, 8, 10) for _ in range(nst * n)]).reshape(nst, n)
+        for _q in range(rng.randint(1, 3)):
+            a[rng.randrange(nst), rng.randrange(n)] = rng.choice([float("inf"), float("-inf")])
+        if rng.random() < 0.3:
+            a[rng.randrange(nst), :] = float("inf")          # every node infinite (depth of deep-water points)
+        nearest = rng.random() < 0.3
+        xs = list(grid)
+        rng.shuffle(xs)
+        one_d = nst == 1 and rng.random() < 0.5
+        coords = {"depthlevel": coord_desc("float", grid), "station": coord_desc("float", [float(i) for i in range(nst)])}
+        if one_d:
+            vars_ = [{"name": "v", "dims": ["depthlevel"], "shape": [n], "data": hexlist(a[0])}]
+        else:
+            vars_ = [{"name": "v", "dims": ["station", "depthlevel"], "shape": [nst, n], "data": hexlist(a)}]
+        cases.append({"op": "ds_axis", "coord": "depthlevel", "nearest": nearest, "targets": tgt("float", xs),
+                      "ds": {"coords": coords, "vars": vars_}})
+        metas.append((grid, a, xs, one_d))
+    impl = ctx.impl("C13.py", {"cases": cases})["results"]
+    for c, (grid, a, xs, one_d), im in zip(cases, metas, impl):
+        rep = {"op": "interpolate_dataset_along_axis", "case": c, "note": "data contain +-inf; targets are grid nodes"}
+        ctx.tally("axis:infinite-data")
+        ctx.count(["inf", c], True)
+        if isinstance(im, dict) and "error" in im:
+            ctx.oracle_fail("interpolate_dataset_along_axis raised %s: %s" % (im["error"], im["msg"]), rep)
+            continue
+        got = unhexarr(im["vars"]["v"])
+        # the interpolated coordinate replaces depthlevel at the same axis position
+        got = got.reshape(1, len(xs)) if one_d else got
+        for j, x in enumerate(xs):
+            i = grid.index(x)
+            for st in range(a.shape[0]):
+                g, w = float(got[st, j]), float(a[st, i])
+                if not (g == w):
+                    ctx.oracle_fail("value at the grid node %r is %r, the data hold %r there (neighbouring nodes: %s)"
+                                    % (x, g, w, [float(v) for v in a[st, max(0, i - 1):i + 2]]), dict(rep, station=st, node=i))
+                    break
+            else:
+                continue
+            break
+
+
 def run(ctx):
     stream_enc(ctx, ctx.n(300, 10000))
     stream_axis(ctx, ctx.n(450, 15000), ctx.n(60, 1500))
@@ -1305,6 +1357,7 @@ def run(ctx):
     stream_grid2(ctx, ctx.n(60, 2500))
     stream_points(ctx, ctx.n(150, 5000))
     stream_spectra(ctx, ctx.n(180, 6000))
+    stream_inf(ctx, ctx.n(60, 2000))
 
 
 def replay(ctx, obj):
